@@ -770,3 +770,68 @@ def monitor_c13(se, stats):
                 viol.append({"step": i, "what": "content block on %d.%d left incomplete at quiescence (%s, after `%s`)" % (key[0], key[1], cur, st["op"])})
                 state[key] = ("idle",)
     return viol
+
+
+def monitor_c06(se, stats):
+    """Prefetch: every limited window counts exactly the unsettled deliveries charged to it (count and bytes); a delivery
+    under a limit N>0 is made only while fewer than N are outstanding; no-ack deliveries charge nothing."""
+    viol = []
+    rabbit = se["cfg"].get("rabbit", True)
+    sizes = {}
+    prev = None
+    for i, st in enumerate(se["steps"]):
+        if st["snap"] == ["WEDGED"]:
+            break
+        cur = parse_snap(st["snap"])
+        subs = [x.strip() for x in st["op"][6:].split("|")] if st["op"].startswith("MULTI ") else [st["op"]]
+        for op in subs:
+            f = op.split()
+            if f[0] == "PUB":
+                sizes[f[8]] = sum(int(x) for x in f[9].split("+")) if f[9] not in ("0", "-") else 0
+        # ledger at quiescence
+        conn_tot = {}
+        for key, ch in cur["chans"].items():
+            n = len(ch["unacked"])
+            b = sum(sizes.get(u["uid"], 0) for u in ch["unacked"])
+            conn_tot[key[0]] = (conn_tot.get(key[0], (0, 0))[0] + n, conn_tot.get(key[0], (0, 0))[1] + b)
+            stats["windows_checked"] = stats.get("windows_checked", 0) + 1
+            if ch["st"] in (1, 2) and (ch["qos"][2], ch["qos"][3]) != (n, b):
+                viol.append({"step": i, "what": "channel %d.%d window says count/bytes %s but %d deliveries / %d bytes are unsettled (after `%s`)" % (
+                    key[0], key[1], (ch["qos"][2], ch["qos"][3]), n, b, st["op"])})
+            if rabbit:
+                for cm in ch["consumers"]:
+                    if cm["own"] is None or cm["status"] == 1:
+                        continue
+                    mine = [u for u in ch["unacked"] if u["ctag"] == cm["tag"]]
+                    nb = (len(mine), sum(sizes.get(u["uid"], 0) for u in mine))
+                    if (cm["own"][2], cm["own"][3]) != nb:
+                        viol.append({"step": i, "what": "consumer %s on %d.%d window says %s but its unsettled deliveries are %s (after `%s`)" % (
+                            cm["tag"], key[0], key[1], (cm["own"][2], cm["own"][3]), nb, st["op"])})
+        if not rabbit:
+            for c, cn in cur["conns"].items():
+                if (cn["qos"][2], cn["qos"][3]) != conn_tot.get(c, (0, 0)):
+                    viol.append({"step": i, "what": "connection %d window says %s but its channels hold %s unsettled (after `%s`)" % (
+                        c, (cn["qos"][2], cn["qos"][3]), conn_tot.get(c, (0, 0)), st["op"])})
+        # admission: deliveries of this step under a limit
+        if prev is not None:
+            dels = [d for d in _deliveries(st, prev) if d["kind"] != "basic.return"]
+            count = {}
+            for d in dels:
+                if d["noack"] or d["noack"] is None:
+                    continue
+                key = (d["conn"], d["chan"])
+                pch = prev["chans"].get(key)
+                cch = cur["chans"].get(key)
+                if not pch or not cch:
+                    continue
+                stats["limited_deliveries"] = stats.get("limited_deliveries", 0) + (1 if cch["qos"][0] else 0)
+                lim = cch["qos"][0]
+                if lim and pch["qos"][0] == lim:
+                    # outstanding on this channel right after this delivery may not exceed the limit
+                    count[key] = count.get(key, 0) + 1
+                    settled_now = len([u for u in pch["unacked"] if u["tag"] not in {x["tag"] for x in cch["unacked"]}])
+                    if len(cch["unacked"]) > lim:
+                        viol.append({"step": i, "what": "channel %d.%d has %d unsettled deliveries under prefetch-count %d (after `%s`)" % (
+                            key[0], key[1], len(cch["unacked"]), lim, st["op"])})
+        prev = cur
+    return viol
